@@ -13,7 +13,7 @@ From Coq Require Import List NArith Bool.
 Import ListNotations.
 Open Scope N_scope.
 
-Definition key := N.
+Notation key := N (only parsing).
 Definition fmap (V : Type) := key -> option V.
 Definition fempty {V : Type} : fmap V := fun _ => None.
 Definition fset {V : Type} (m : fmap V) (k : key) (v : option V) : fmap V :=
